@@ -219,7 +219,7 @@ extern void *mpt_identifier_set(MPT_STRUCT(identifier) *id, const char *name, in
 	if (len) {
 		int post = id->_max - len;
 		/* non-printable data has no source to copy from */
-		dest = name ? memcpy(id->_val, name, len) : memset(id->_val, 0, len);
+		dest = name ? memmove(id->_val, name, len) : memset(id->_val, 0, len);
 		if (post) {
 			memset(id->_val + len, 0, post);
 		}
